@@ -2,6 +2,7 @@ import AasVerif.Lemmas.JsonSchemaGenerate
 import AasVerif.Lemmas.JsonSchemaLeaf
 import AasVerif.Lemmas.JsonSchemaLookup
 import AasVerif.Lemmas.JsonSchemaChoice
+import AasVerif.Lemmas.JsonSchemaSearchB
 /-!
 # C11 — JSON Schema is valid and never rejects valid data
 
@@ -14,7 +15,7 @@ patterns are statements about the executable matcher `searchB` on UTF-16 units.
 Planned, not proved (see `design.d/C11.md`): `valid_data_accepted` for whole documents through the
 `allOf`/`$ref` inheritance chain and the SDK's `to_jsonable` (needs the definition look-up lemma for
 `generate` and a data model); exactness of `oneOf` (`choice_exclusive` is proved in its
-"at most one alternative" form); `searchB ↔ Retree.MUnion`.
+"at most one alternative" form).  `searchB ↔ Retree.MUnion` is proved: see the last section.
 -/
 namespace AasVerif.Props.C11
 open AasVerif AasVerif.JsonSchema AasVerif.Retree
@@ -230,5 +231,71 @@ theorem choice_exact (defs : Defs) (alts : List Text) (hnd : alts.Nodup)
     {X : Text} (hX : X ∈ alts) {kvs : List (Text × Json)} (hmt : lookup modelTypeKey kvs = some (.str X)) :
     Valid defs (.mk [.oneOf (alts.map refTo)]) (.obj kvs) ↔ Valid defs (refTo X) (.obj kvs) :=
   JsonSchema.choice_exact defs alts hnd hdefs hX hmt
+
+/-! ## The regex matcher is the semantics
+
+`searchB` is what `validates` runs for the `pattern` keyword and what the driver answers on every
+verdict of the correspondence; `Search re u` (`∃ a b c, u = a ++ b ++ c ∧ Retree.MUnion re a b c`) is
+`re.search` in the denotational semantics shared with C16/C17/C18 (anchors read their context). -/
+
+/-- **`searchB` IS the un-anchored search of the denotational semantics**, for every regex tree and
+every text: `yes` iff some substring matches in its context, `no` iff none does, and the fuel it
+supplies (`fuelFor`) is always enough — it never answers `out`. -/
+theorem searchB_is_semantics (re : Regex) (u : Text) :
+    (searchB re u = .yes ↔ Search re u) ∧ (searchB re u = .no ↔ ¬ Search re u) ∧ searchB re u ≠ .out :=
+  ⟨searchB_yes_iff re u, searchB_no_iff re u, searchB_ne_out re u⟩
+
+/-- **The `pattern` keyword never runs out of fuel**: on a string it answers `some true` or
+`some false`, and `some true` exactly when the semantics finds a match in the UTF-16 units. -/
+theorem pattern_keyword_decided (defs : Defs) (r : Schema → Json → Option Bool) (re : Regex) (t : Text) :
+    (validKw defs r (.pattern re) (.str t) = some true ↔ Search re (Fix16.utf16 t)) ∧
+    (validKw defs r (.pattern re) (.str t) = some false ↔ ¬ Search re (Fix16.utf16 t)) := by
+  have h := searchB_is_semantics re (Fix16.utf16 t)
+  simp only [validKw]
+  cases hs : searchB re (Fix16.utf16 t) <;> simp_all [R.toO]
+
+/-- the `pattern` keyword, in the semantics -/
+theorem pattern_keyword_iff (defs : Defs) (re : Regex) (j : Json) :
+    KwValid defs (.pattern re) j ↔ ∀ t, j = .str t → Search re (Fix16.utf16 t) := by
+  rw [kwv_pattern]
+  simp only [searchB_yes_iff]
+
+/-- "every inferred pattern is found", in the semantics -/
+theorem patsOK_iff (pats : Option (List Text)) (t : Text) :
+    PatsOK pats t ↔
+      ∀ ps, pats = some ps → ∀ p ∈ ps, ∃ re, fixPattern p = .ok re ∧ Search re (Fix16.utf16 t) := by
+  simp only [PatsOK, searchB_yes_iff]
+
+/-- **C11b for strings, in the semantics.** The schema emitted for a constrained string accepts the
+JSON string `t` iff the length of `t` is within the inferred bounds and every inferred pattern — parsed
+after the rewriting for UTF-16 engines — has a match somewhere in the UTF-16 units of `t`, in the
+denotational semantics of the regex tree. -/
+theorem string_accepted_iff (defs : Defs) (cs : Cons) (s : Schema) (t : Text)
+    (h : defineType (.prim .str (some cs)) = .ok s) :
+    Valid defs s (.str t) ↔
+      LenIn cs.len id t.length ∧
+      ∀ ps, cs.pats = some ps → ∀ p ∈ ps, ∃ re, fixPattern p = .ok re ∧ Search re (Fix16.utf16 t) := by
+  rw [type_lemma defs _ s h, ← patsOK_iff]
+  constructor
+  · rintro ⟨_, hc⟩
+    exact (hc cs rfl t rfl).1 rfl
+  · intro hc
+    refine ⟨⟨.string, by decide, rfl⟩, ?_⟩
+    intro c hcs t' ht'
+    injection hcs with hcs
+    injection ht' with ht'
+    subst hcs; subst ht'
+    exact ⟨fun _ => hc, fun hb => by cases hb⟩
+
+/-- non-vacuity (and the matcher at work): `^a+$` is found in `aa`, not in `ab`; `b` is found in `ab` -/
+example : Search (.mk [.mk [.mk (.sym .start) none, .mk (.char ⟨97, false⟩) (some ⟨false, 1, none⟩),
+      .mk (.sym .stop) none]]) [97, 97] ∧
+    ¬ Search (.mk [.mk [.mk (.sym .start) none, .mk (.char ⟨97, false⟩) (some ⟨false, 1, none⟩),
+      .mk (.sym .stop) none]]) [97, 98] ∧
+    Search (.mk [.mk [.mk (.char ⟨98, false⟩) none]]) [97, 98] := by
+  refine ⟨?_, ?_, ?_⟩
+  · rw [← searchB_yes_iff]; decide
+  · rw [← searchB_no_iff]; decide
+  · rw [← searchB_yes_iff]; decide
 
 end AasVerif.Props.C11
